@@ -1147,8 +1147,8 @@ func splitURI(u string) UriJSON {
 	return UriJSON{Host: parts[0], Segs: append([]string{}, parts[1:]...)}
 }
 
-// names the model's segment-wise reading of spliced regex text covers
-var fragmentName = regexp.MustCompile(`^[A-Za-z0-9._*-]*$`)
+// every name without '/' can be sampled: names are quoted, and the model reads quoted text exactly
+var fragmentName = regexp.MustCompile(`^[^/]*$`)
 
 func inFragment(in *Input) bool {
 	for _, x := range in.Ixns {
@@ -2069,10 +2069,11 @@ func main() {
 		g.malformed(1200)
 		g.store(1200)
 	} else {
-		g.exhaustive(2, 3, 12)
-		g.random(1200, 4, names)
-		g.malformed(300)
-		g.store(240)
+		g.exhaustive(2, 3, 23)
+		g.random(1200, 8, names)
+		g.random(200, 4, append(names, "a|b", "c++", "x(y", "web.v1"))
+		g.malformed(120)
+		g.store(90)
 	}
 	// run (bounded parallelism)
 	var wg sync.WaitGroup
